@@ -6,7 +6,7 @@ transport authentication as the step that ties the two ends together).
 Dialing side, per candidate (after de-duplication) one goroutine: `tr.Dial` (→ established | failed | cancelled), then
 the claim `claimed.CompareAndSwap(false, true)`: the first claimant puts its connection into the result channel
 (`handed`), every later one closes its connection (`closedLoser`). The caller takes the channel's content, returns it
-and cancels the context; dials still in flight observe the cancellation (a dial cancelled at the very moment its
+and cancels the context (or its own context is cancelled from outside: `callerCancel`, `mainAbort`); dials still in flight observe the cancellation (a dial cancelled at the very moment its
 handshake completes drops the connection *without* telling the peer).
 
 Accepting side: the listener completes handshakes in its own order (`srvDone`, any order, also for connections the
@@ -35,11 +35,13 @@ structure St where
   discarded : List Nat
   primary : Option Nat         -- the receiver's transfer connection
   gaveUp : Bool                -- ProbeAndDial returned "all probes failed"
+  aborted : Bool               -- ProbeAndDial returned the caller's cancellation
   deriving DecidableEq, Repr
 
 def init (k : Nat) : St :=
   { tasks := List.replicate k .probing, claimed := false, winner := none, slot := none, returned := none,
-    ctxCancelled := false, queue := [], seen := [], pending := [], authed := [], discarded := [], primary := none, gaveUp := false }
+    ctxCancelled := false, queue := [], seen := [], pending := [], authed := [], discarded := [], primary := none, gaveUp := false,
+    aborted := false }
 
 inductive Step
   | clientDone (i : Nat)       -- `tr.Dial` returns a connection
@@ -48,6 +50,8 @@ inductive Step
   | claim (i : Nat)            -- `claimed.CompareAndSwap(false, true)` and what follows
   | mainRecv                   -- the caller receives from the result channel, returns, the deferred cancel fires
   | mainGiveUp                 -- every dial goroutine has finished and the channel is empty: "all probes failed"
+  | callerCancel               -- the caller's context is cancelled from outside (it may happen at any moment)
+  | mainAbort                  -- the caller's `select` takes `<-ctx.Done()`: take the claim, or close the connection that holds it
   | srvDone (i : Nat)          -- the listener completes the handshake of candidate i's connection
   | accept                     -- `transport.Accept` returns the next completed connection; its authentication starts
   | authOk (i : Nat)
@@ -76,9 +80,19 @@ def step (s : St) : Step → Option St
   | .mainGiveUp =>
     -- `allDone` is closed only after every counted dial goroutine has returned (the wait starts after all of them
     -- are counted), and a claimed connection in the channel is taken first
-    if s.returned = none ∧ s.gaveUp = false ∧ s.slot = none ∧
+    if s.returned = none ∧ s.gaveUp = false ∧ s.aborted = false ∧ s.slot = none ∧
         s.tasks.all (fun t => t == .failed || t == .cancelled || t == .closedLoser) then
       some { s with gaveUp := true, ctxCancelled := true }
+    else none
+  | .callerCancel => some { s with ctxCancelled := true }
+  | .mainAbort =>
+    -- nobody will take a winner any more. `claimed.CompareAndSwap(false, true)` by the caller: a dial that completes from now on
+    -- finds the claim taken and closes itself; if a dial holds the claim its connection is in the channel: taken out and closed
+    if s.ctxCancelled = true ∧ s.returned = none ∧ s.gaveUp = false ∧ s.aborted = false then
+      if s.claimed = false then some { s with claimed := true, aborted := true }
+      else match s.slot with
+        | some i => some { s with slot := none, winner := none, tasks := s.tasks.set i .closedLoser, aborted := true }
+        | none => none
     else none
   | .srvDone i =>
     -- (over-approximation: also for a connection whose dial is cancelled or closed afterwards, or was already)
@@ -110,6 +124,20 @@ def run (s : St) : List Step → Option St
 inductive Reachable (k : Nat) : St → Prop
   | init : Reachable k (init k)
   | step {s s' : St} (a : Step) : Reachable k s → step s a = some s' → Reachable k s'
+
+/-- `probeWithTransport` as it was: on cancellation the caller only looked into the channel without taking the claim -/
+def stepOld (s : St) : Step → Option St
+  | .mainAbort =>
+    if s.ctxCancelled = true ∧ s.returned = none ∧ s.gaveUp = false ∧ s.aborted = false then
+      match s.slot with
+      | some i => some { s with slot := none, winner := none, tasks := s.tasks.set i .closedLoser, aborted := true }
+      | none => some { s with aborted := true }
+    else none
+  | a => step s a
+
+def runOld (s : St) : List Step → Option St
+  | [] => some s
+  | a :: as => match stepOld s a with | some s' => runOld s' as | none => none
 
 /-- connection of candidate `i` is open on the dialing side -/
 def isOpen (s : St) (i : Nat) : Prop := task s i = .established ∨ task s i = .handed
